@@ -99,7 +99,12 @@ class PopSampler(object):
         self.n_samples = case['n_samples']
         self.top = np.array(case['top'], dtype=float)
         self.cov = None if case.get('cov') is None else np.array(case['cov'])
-        self.model = popbuild.build(self.spec, case.get('n_ids'))
+        if case.get('resize'):
+            # the model held one individual when it was created
+            self.model = popbuild.build(self.spec, None)
+            self.model.set_n_ids(case['n_ids'])
+        else:
+            self.model = popbuild.build(self.spec, case.get('n_ids'))
         self.label = 'PopulationModel ' + popbuild.label(self.spec)
         self.d = rp.n_dim(self.spec)
 
@@ -196,6 +201,16 @@ def w_sampler(case):
                      'are chosen WITHOUT replacement: they are not independent '
                      'draws (%s)' % lab, 'expected': 'replace=True',
                      'observed': norep, 'behaviour': 'no_replacement'})
+    if case['family'] == 'pop' and case.get('n_ids') and \
+            sm.spec['kind'] == 'H':
+        wrong_n = [c for c in seam0.choice_calls if c['n'] != case['n_ids']]
+        if wrong_n or not seam0.choice_calls:
+            viol.append({'sub': 'choice_n', 'message': 'individuals of a '
+                         'heterogeneous model are not drawn among all %d '
+                         'individuals it holds (%s)' % (case['n_ids'], lab),
+                         'expected': case['n_ids'],
+                         'observed': [c['n'] for c in seam0.choice_calls],
+                         'behaviour': 'choice_n'})
     if case['family'] == 'pop':
         # the sample handed out is the caller's: a later call with other parameters
         # does not change it
@@ -226,6 +241,25 @@ def w_sampler(case):
                              'sample is not the sum of the log-likelihoods of its '
                              'rows (%s)' % lab, 'expected': parts_,
                              'observed': whole, 'behaviour': 'joint'})
+            # one cell outside the support the sampler draws from (the others as
+            # drawn): the batch has no density
+            for cell in itertools.product(range(S0.shape[0]), range(S0.shape[1])):
+                lo, hi = sm.support(cell)
+                if not np.isfinite(lo) or S0.size < 2:
+                    continue
+                out_ = S0.copy()
+                out_[cell] = lo - 0.3
+                w_out = float(sm.model.compute_log_likelihood(
+                    sm.top, out_, **sm._kw()))
+                ntr += 1
+                if w_out != -np.inf:
+                    viol.append({'sub': 'joint_support', 'message': 'a batch with '
+                                 'one value outside the support the sampler draws '
+                                 'from (cell %s, the others as drawn) is given a '
+                                 'density (%s)' % (list(cell), lab),
+                                 'expected': -np.inf, 'observed': w_out,
+                                 'behaviour': 'joint_support'})
+                    break
     if getattr(sm, 'mutated', False):
         viol.append({'sub': 'inputs', 'message': 'sampling modified the parameter / '
                      'model-output / covariate arrays passed in (%s)' % lab,
@@ -497,15 +531,15 @@ def build(tier, seed):
     elem = ['G', 'Gnc', 'LN', 'LNnc', 'TG', 'P', 'H']
     specs = []
     for k in elem:
-        for d in ((1, 2) if tier == 'thorough' else (1,)):
+        # (every class with one and two dimensions: one base variate per dimension)
+        for d in (1, 2):
             specs.append(popbuild.elem(k, d))
-    specs += [rp.G(2), rp.LN(2, False)]
     for k in ('G', 'Gnc', 'LN', 'LNnc', 'TG', 'P'):
         specs.append(rp.Cov(popbuild.elem(k, 1), 1))
     specs.append(rp.Cov(rp.G(2), 2, [[0, 1], [1, 0]]))
-    pairs = ['G', 'LNnc', 'TG', 'P', 'H', 'Cov(G)', 'Cov(LNnc)']
-    if tier == 'thorough':
-        pairs += ['Gnc', 'LN', 'Cov(P)', 'Cov(TG)']
+    # (every class in both tiers)
+    pairs = ['G', 'LNnc', 'TG', 'P', 'H', 'Cov(G)', 'Cov(LNnc)', 'Gnc', 'LN',
+             'Cov(P)', 'Cov(TG)']
     for a, b in itertools.product(pairs, repeat=2):
         specs.append(rp.Comp([popbuild.elem(a, 1), popbuild.elem(b, 1)]))
     base = rp.Comp([rp.G(1), rp.LN(1, False), rp.P(1)])
@@ -528,10 +562,11 @@ def build(tier, seed):
         for ns in (2, 3):
             if ns > n_ids + 1:
                 continue
-            pop.append({'family': 'pop', 'spec': spec, 'n_samples': ns,
-                        'n_ids': n_ids,
-                        'top': popvals.top_values(spec, n_ids, seed), 'cov': None,
-                        'n_nodes': n_nodes})
+            for resize in (False, True):
+                pop.append({'family': 'pop', 'spec': spec, 'n_samples': ns,
+                            'n_ids': n_ids, 'resize': resize,
+                            'top': popvals.top_values(spec, n_ids, seed),
+                            'cov': None, 'n_nodes': n_nodes})
     for spec in (rp.Red(rp.P(2), {0: 1.4}), rp.Red(rp.P(3), {1: 0.6})):
         pop.append({'family': 'pop', 'spec': spec, 'n_samples': 2,
                     'top': popvals.top_values(spec, 1, seed), 'cov': None,
